@@ -19,6 +19,10 @@ with the real builder and checks, on the emitted statements (program order = bui
                anti-program-order one plus seeded random ones) gives the same events, the same
                termination and the same final value of every variable as the written order
 
+Not generated unless budget["aliasing"] is set: plain array copies (`a <- <state>v`).  The numpy interpreter
+binds both names to one array, so `a[0] <- 9` also changes <state>v without any recorded conflict; replay()
+accepts such programs and reports the resulting schedule difference (clause `schedule` only).
+
 Input (JSON): {"ops": [op...], "ctx": {optional initial values}}
 op:
   ["assign", lhs, rhs]  |  ["assign", lhs, rhs, [[ident, lo, hi], ...]]      lhs: "x" | ["[]", "a", idx]
@@ -233,9 +237,10 @@ class OutOfDomain(Exception):
 
 
 def build(ops):
-    """-> dict(builder, stmts, expect_guard (per emitted statement), handed (names), collisions, json_reads)"""
+    """runs the call sequence on a real CodeBuilder -> dict(builder, stmts (program order), guards (expected guard
+    literals per emitted statement), fresh / handed (names the builder handed out), collisions, used)"""
     b = lang.CodeBuilder("ph")
-    info = {"guards": [], "fresh": [], "handed": [], "collisions": [], "jacc": []}
+    info = {"guards": [], "fresh": [], "handed": [], "collisions": []}
     used = {}                  # user name -> set of positions seen so far (loop identifiers not included)
 
     def note(pos, names_):
@@ -611,9 +616,13 @@ def listing(stmts):
     return " | ".join("{%s} %s  <- after %s" % (s.id, str(s).replace("\n", " "), sorted(s.depends_on)) for s in stmts)
 
 
+# replay and the fingerprint explore a superset of the schedules of either tier (same seed, larger caps)
+REPLAY_MAX_EXT, REPLAY_NRANDOM = 600, 40
+
+
 def replay(inp):
     try:
-        res = analyse(inp)
+        res = analyse(inp, max_ext=REPLAY_MAX_EXT, nrandom=REPLAY_NRANDOM)
     except OutOfDomain as ex:
         return {"fails": False, "detail": "outside the domain: %s" % ex}
     except Exception as ex:
@@ -646,7 +655,7 @@ def fp_d8(inp):
         else:
             return False
     try:
-        res2 = analyse(inp, extra_edges=extra)
+        res2 = analyse(inp, max_ext=REPLAY_MAX_EXT, nrandom=REPLAY_NRANDOM, extra_edges=extra)
     except Exception:
         return False
     return res2["schedule"] in ("ok", "prog-order-error")
@@ -850,7 +859,7 @@ def bounded(payload):
     tier = payload.get("tier", "quick")
     rng = random.Random(seed)
     quick = tier == "quick"
-    nprog = budget.get("programs", 1500 if quick else 30000)
+    nprog = budget.get("programs", 1500 if quick else 20000)
     maxops = budget.get("max_ops", 7)
     exh_len = budget.get("exhaustive_len", 2 if quick else 3)
     max_ext = budget.get("max_extensions", 150 if quick else 600)
